@@ -443,24 +443,24 @@ func (bh *Header) Validate(r *Record) error {
 	rp := r.AuxFields.Get(programTag)
 	found := false
 	for _, hp := range bh.Progs() {
-		if hp.UID() == rp.Value() {
+		if hp.UID() == auxValue(rp) {
 			found = true
 			break
 		}
 	}
 	if !found && len(bh.Progs()) != 0 {
-		return fmt.Errorf("sam: program uid not found: %v", rp.Value())
+		return fmt.Errorf("sam: program uid not found: %v", auxValue(rp))
 	}
 
 	rg := r.AuxFields.Get(readGroupTag)
 	found = false
 	for _, hg := range bh.RGs() {
-		if hg.Name() == rg.Value() {
-			rPlatformUnit := r.AuxFields.Get(platformUnitTag).Value()
+		if hg.Name() == auxValue(rg) {
+			rPlatformUnit := auxValue(r.AuxFields.Get(platformUnitTag))
 			if rPlatformUnit != hg.PlatformUnit() {
 				return fmt.Errorf("sam: mismatched platform for read group %s: %v != %v", hg.Name(), rPlatformUnit, hg.platformUnit)
 			}
-			rLibrary := r.AuxFields.Get(libraryTag).Value()
+			rLibrary := auxValue(r.AuxFields.Get(libraryTag))
 			if rLibrary != hg.Library() {
 				return fmt.Errorf("sam: mismatched library for read group %s: %v != %v", hg.Name(), rLibrary, hg.library)
 			}
@@ -469,10 +469,19 @@ func (bh *Header) Validate(r *Record) error {
 		}
 	}
 	if !found && len(bh.RGs()) != 0 {
-		return fmt.Errorf("sam: read group not found: %v", rg.Value())
+		return fmt.Errorf("sam: read group not found: %v", auxValue(rg))
 	}
 
 	return nil
+}
+
+// auxValue returns the value of the auxiliary field a, or nil when the
+// record does not have the field.
+func auxValue(a Aux) interface{} {
+	if len(a) < 3 {
+		return nil
+	}
+	return a.Value()
 }
 
 // Refs returns the Header's list of References. The returned slice
